@@ -126,10 +126,15 @@ def extra_C14(tier, seed, scratch, cfg, out):
             prof = {"g1": 0.2, "read_rate": 0.0, "w": {"reopen": 0, "clear": 0}}
             im = Impl(scratch)
             try:
-                ses = Session(im, r, prof, cfg=cfg)
-                ses.run(5)
+                ses = Session(im, r, prof, cfg=cfg, family="g2")
+                ses.init()
+                for L in r.sample([75, 100, 148, 149, 200, 223], 2):      # multi-block stems: head and tails are separate appends
+                    ses.do("addpage %s %d" % (hx(bytes([r.choice([65, 66, 0x80])]) * 2 + b"|" + bytes([r.choice([67, 0xff])]) * (L - 1) + b"|"), r.randint(0, 1)))
+                for _ in range(4):
+                    getattr(ses, "w_" + r.choice(["addpage", "addlinks", "batch", "create", "addpages"]))()
                 nlog = len(FULL_LOG)
-                for k in sorted(r.sample(range(nlog + 1), min(nlog + 1, 25))):
+                torn = [k + 1 for k, (kind, off, data) in enumerate(FULL_LOG) if kind in (0, 1) and len(data) == 128 and data[75] & 32]
+                for k in sorted(set(r.sample(range(nlog + 1), min(nlog + 1, 20)) + torn[:12])):
                     if im.exec("cut %d 0" % k)[0] != "ok":
                         continue
                     for q in CUT_OBSERVERS + ["? counts", "? metrics"]:
@@ -307,8 +312,12 @@ def extra_C18(tier, seed, scratch, cfg, out):
             prof["g1"] = 0.2            # arbitrary-byte stems with multi-block lengths
         im = Impl(scratch)
         try:
-            ses = Session(im, r, prof, cfg=cfg)
-            ses.run(6 if tier == "quick" else 10)
+            ses = Session(im, r, prof, cfg=cfg, family=("g2" if i % 2 == 0 else None))
+            ses.init()
+            if i % 2 == 0:                  # a node whose head and tail blocks are separate appends, early in the log
+                L = r.choice([75, 100, 148, 149, 223])
+                ses.do("addpage %s 1" % hx(b"\x80A|" + b"C" * (L - 1) + b"|"))
+            ses.run(6 if tier == "quick" else 10, skip_init=True)
             base_lines = list(ses.lines)
             nlog = len(FULL_LOG)
             log_kinds = [(k, o, len(d)) for k, o, d in FULL_LOG]
@@ -417,9 +426,11 @@ def _co_scenario(r, ses):
     reqs = []
     n = r.choice([2, 2, 3])
     kinds = r.sample(["batch", "batch", "rule", "pages", "net", "pages", "batch"], n)
+    if r.random() < 0.5:
+        kinds = ["batch", "batch"] + (["batch"] if n == 3 else [])
     if "batch" not in kinds and "rule" not in kinds:
         kinds[0] = "batch"
-    shared = [ses.page_lru() for _ in range(r.randint(2, 4))]
+    shared = [ses.page_lru() for _ in range(r.randint(2, 3))] + [ses.new_lru()]
     for k in kinds:
         if k == "batch":
             pool = shared if r.random() < 0.7 else [ses.page_lru() for _ in range(r.randint(1, 4))]
@@ -447,7 +458,7 @@ def _co_scenario(r, ses):
 
 def extra_C16(tier, seed, scratch, cfg, out):
     from . import model
-    hits, nscen, nsteps = [], (60 if tier == "quick" else 800), 0
+    hits, nscen, nsteps = [], (140 if tier == "quick" else 1500), 0
     known_hits = []
     for i in range(nscen):
         r = random.Random(seed * 7907 + 16000 + i)
